@@ -141,11 +141,24 @@ func runC06(rt *rapid.T, allowCtl bool) {
 		rt.Fatalf("VERIF-INFRA: %v", err)
 	}
 	n := rapid.IntRange(1, 12).Draw(rt, "senders")
+	// slow write: the peer's window stays closed for a while, so the (single) sender's write completes
+	// late; T3 must run from the completed write, not from the call
+	writeDelay := time.Duration(0)
+	if rapid.IntRange(0, 6).Draw(rt, "slowWrite") == 0 {
+		n = 1
+		writeDelay = time.Duration(rapid.SampledFrom([]int{100, 300, 600}).Draw(rt, "writeDelayMs")) * time.Millisecond
+	}
 	pol := make([]c06Policy, n)
 	for i := range pol {
 		pol[i] = genC06Policy(rt, allowCtl)
+		if writeDelay > 0 {
+			pol[i].ctx, pol[i].startOff = "none", 0
+		}
 	}
 	drop := rapid.SampledFrom([]string{"none", "none", "none", "early", "mid"}).Draw(rt, "drop")
+	if writeDelay > 0 {
+		drop = "none"
+	}
 	dropAt := time.Duration(0)
 	switch drop {
 	case "early":
@@ -238,6 +251,10 @@ func runC06(rt *rapid.T, allowCtl bool) {
 		}
 	})
 
+	if writeDelay > 0 {
+		p.C.SetInboundWindow(4)
+		p.C.StallInbound(true)
+	}
 	// --- the callers ---
 	res := make([]c06Result, n)
 	var swg sync.WaitGroup
@@ -264,6 +281,11 @@ func runC06(rt *rapid.T, allowCtl bool) {
 			res[i].reply, res[i].err = w.conn.SendDataMessage(ctx, pl.stream, pl.fn, true, secs2.A(fmt.Sprintf("t%d", i)))
 			res[i].returned = time.Now()
 		}(i)
+	}
+	if writeDelay > 0 {
+		time.Sleep(writeDelay)
+		p.C.SetInboundWindow(netsim.DefaultWindow)
+		p.C.StallInbound(false)
 	}
 	if drop != "none" {
 		time.Sleep(dropAt)
@@ -303,7 +325,8 @@ func runC06(rt *rapid.T, allowCtl bool) {
 		if r.reply != nil && r.err != nil {
 			fail("sender %d: returned both a reply and the error %v", i, r.err)
 		}
-		start := pl.startOff // relative to t0
+		start := pl.startOff        // relative to t0
+		wrote := start + writeDelay // when the primary was completely written
 		// predicted outcome on the delay lattice
 		type cause struct {
 			at   time.Duration
@@ -312,13 +335,13 @@ func runC06(rt *rapid.T, allowCtl bool) {
 		var causes []cause
 		switch pl.kind {
 		case "reply", "dup", "dup-late", "collide-primary", "collide-control", "unsolicited":
-			causes = append(causes, cause{start + pl.delay, "reply"})
+			causes = append(causes, cause{wrote + pl.delay, "reply"})
 		case "abort":
-			causes = append(causes, cause{start + pl.delay, "abort"})
+			causes = append(causes, cause{wrote + pl.delay, "abort"})
 		case "reject":
-			causes = append(causes, cause{start + pl.delay, "reject"})
+			causes = append(causes, cause{wrote + pl.delay, "reject"})
 		}
-		causes = append(causes, cause{start + c06T3, "t3"})
+		causes = append(causes, cause{wrote + c06T3, "t3"})
 		switch pl.ctx {
 		case "d100":
 			causes = append(causes, cause{start + 100*time.Millisecond, "deadline"})
@@ -475,6 +498,9 @@ func runC06(rt *rapid.T, allowCtl bool) {
 	}
 	nontrivial := overlap >= 3 && (len(distinctDelays) >= 2 || kinds["dup"] || kinds["dup-late"] || kinds["collide-primary"] || kinds["collide-control"])
 	cls := []string{"c06:drop:" + drop}
+	if writeDelay > 0 {
+		cls = append(cls, "c06:slow-write")
+	}
 	for k := range kinds {
 		cls = append(cls, "c06:policy:"+k)
 	}
